@@ -190,3 +190,60 @@ def measure_factor_obligations():
             o.goal = detail
         obs.append(o)
     return obs, None
+
+
+def wrapper_forwarding_obligations():
+    """The four 1D convenience wrappers are their general routine at fixed derivative orders and forward every optional argument:
+
+        bsp_mass_1d(kv, weightfunc)            = bsp_mixed_deriv_biform_1d(kv, 0, 0, weightfunc=weightfunc)
+        bsp_stiffness_1d(kv, weightfunc)       = bsp_mixed_deriv_biform_1d(kv, 1, 1, weightfunc=weightfunc)
+        bsp_mass_1d_asym(kv1, kv2, quadgrid)      = bsp_mixed_deriv_biform_1d_asym(kv1, kv2, 0, 0, quadgrid=quadgrid)
+        bsp_stiffness_1d_asym(kv1, kv2, quadgrid) = bsp_mixed_deriv_biform_1d_asym(kv1, kv2, 1, 1, quadgrid=quadgrid)
+
+    so the contract of the general routine (any quadrature grid / weight) carries over to the wrapper.  Call-argument analysis of the single
+    return statement.  Three-valued: refuted when the body is such a single call with other derivative orders, exchanged knot vectors or an
+    optional parameter that is not handed on; unknown (-> bounded tier) for any other body."""
+    import ast
+    from pyvc import frontend
+    from pyvc.symexec import Obligation
+    FF = 'pyiga/assemble.py'
+    src = frontend.load(FF)
+    spec = {'bsp_mass_1d': ('bsp_mixed_deriv_biform_1d', ['knotvec', '0', '0'], ['weightfunc']),
+            'bsp_stiffness_1d': ('bsp_mixed_deriv_biform_1d', ['knotvec', '1', '1'], ['weightfunc']),
+            'bsp_mass_1d_asym': ('bsp_mixed_deriv_biform_1d_asym', ['knotvec1', 'knotvec2', '0', '0'], ['quadgrid']),
+            'bsp_stiffness_1d_asym': ('bsp_mixed_deriv_biform_1d_asym', ['knotvec1', 'knotvec2', '1', '1'], ['quadgrid'])}
+    obs = []
+    for name, (callee, pos, opt) in spec.items():
+        fn = src.find(name)
+        o = Obligation('assemble:%s:forwards-to:%s' % (name, callee), 'rule', fn.lineno, [], None,
+                       '%s(...) returns %s(%s, %s)' % (name, callee, ', '.join(pos), ', '.join('%s=%s' % (x, x) for x in opt)), src=FF)
+        body = [st for st in fn.body if not (isinstance(st, ast.Expr) and isinstance(st.value, ast.Constant))]
+        status, why = 'unknown', 'body is not a single return of one call'
+        if len(body) == 1 and isinstance(body[0], ast.Return) and isinstance(body[0].value, ast.Call) and isinstance(body[0].value.func, ast.Name):
+            call = body[0].value
+            params = [a.arg for a in fn.args.args]
+            cal = src.find(call.func.id) if call.func.id in (callee,) else None
+            if cal is None:
+                why = 'calls %s' % call.func.id
+            else:
+                cparams = [a.arg for a in cal.args.args]
+                bound = {}
+                for k, a in enumerate(call.args):
+                    bound[cparams[k]] = ast.unparse(a)
+                for kw in call.keywords:
+                    if kw.arg is not None:
+                        bound[kw.arg] = ast.unparse(kw.value)
+                want = dict(zip(cparams, pos))
+                want.update({x: x for x in opt})
+                simple = all(v in params or v.lstrip('-').isdigit() or v == 'None' for v in bound.values())
+                if all(bound.get(k) == v for k, v in want.items()) and set(bound) == set(want):
+                    status, why = 'proved', ''
+                elif simple:
+                    status, why = 'refuted', 'the call binds %r, required %r' % (bound, want)
+                else:
+                    why = 'the call binds %r' % (bound,)
+        o.status, o.backend, o.time = status, 'ast-dataflow (call arguments)', 0.0
+        if status != 'proved':
+            o.goal = why
+        obs.append(o)
+    return obs, None
